@@ -290,11 +290,13 @@ CHECKS["C16"] = {
     "technique": "boundary-value enumeration + rapid streams with a per-call consumption counter on the injected connection",
     "rule": ("case = (limit, frame sizes, read chunk, coalesced?, via hook|listener). Non-trivial: a frame > L occurs, or >=2 coalesced frames. Distinct by SHA-1 of the case. Default 8 MiB limit only in the thorough tier."),
     "assumptions": STD_ASSUMPTIONS + ["the real TCP transport runs over the harness's in-memory net.Conn; listener cases use loopback TCP"],
-    "exhaustive_jobs": ["TestC16Sweep"],
+    "exhaustive_jobs": ["TestC16Sweep", "TestC16GiveUpSweep"],
     "jobs": [
         {"test": "TestC16Replay", "kind": "plain"},
         {"test": "TestC16Sweep", "kind": "plain", "shards": 8, "timeout": (300, 3000), "gomaxprocs": [4]},
         {"test": "TestC16", "kind": "rapid", "shards": 8, "checks": (1500, 40000), "timeout": (300, 3000), "gomaxprocs": [4]},
+        {"test": "TestC16GiveUpSweep", "kind": "plain", "shards": 4, "timeout": (300, 3000), "gomaxprocs": [4]},
+        {"test": "TestC16GiveUp", "kind": "rapid", "shards": 4, "checks": (300, 10000), "timeout": (300, 3000), "gomaxprocs": [4]},
     ],
 }
 
